@@ -1809,6 +1809,73 @@ def gen_skel(group):
     return g
 
 
+def gen_pipeline_flow():
+    """the dataflow of FCBasisSetO{2,3,4}.run: which function produces which intermediate from which intermediates —
+    the A, P, W2, T, W3 of the pipeline theorem (Lemmas/Pipeline.lean) are these variables"""
+    out = ["/- REGENERATED by tools/extract.py from basis_sets/basis_sets_O{2,3,4}.py — do not edit. -/",
+           "namespace Symfc.Gen", ""]
+    for k in (2, 3, 4):
+        rel = f"basis_sets/basis_sets_O{k}.py"
+        mod = parse(rel)
+        fn = find_func(mod, "run", rel, f"FCBasisSetO{k}")
+        body = [st for st in strip_doc(fn.body)]
+        flow = []
+        names_of_interest = {"trans_perms", "c_pt", "proj_rpt", "c_rpt", "n_a_compress_mat", "proj", "eigvecs"}
+
+        def call_step(st):
+            if isinstance(st, ast.Assign) and len(st.targets) == 1 and isinstance(st.value, ast.Call):
+                tgt = ast.unparse(st.targets[0])
+                fname = ast.unparse(st.value.func)
+                if fname == "time.time":
+                    return None
+                args = [ast.unparse(a) for a in st.value.args if isinstance(a, ast.Name) and a.id in names_of_interest]
+                args += [f"{kw.arg}={ast.unparse(kw.value)}" for kw in st.value.keywords
+                         if isinstance(kw.value, ast.Name) and kw.value.id in names_of_interest]
+                return (tgt, fname, args)
+            return None
+        direct = None
+        for st in body:
+            if isinstance(st, ast.Assign) and ast.unparse(st) == "direct_permutation = True":
+                direct = True
+            elif isinstance(st, ast.Assign) and ast.unparse(st.targets[0]) == "direct_permutation":
+                fail(rel, st, "direct_permutation is no longer the constant True")
+            elif isinstance(st, ast.If) and ast.unparse(st.test) == "direct_permutation":
+                for sub in st.body:
+                    cs = call_step(sub)
+                    if cs:
+                        flow.append(cs)
+            elif isinstance(st, ast.If) and ast.unparse(st.test) == "rotational_sum_rules":
+                flow.append(("proj", "OPTIONAL(rotational_sum_rules) -=", ["complementary_compr_projector_rot_sum_rules_O2"]))
+            elif isinstance(st, ast.Assign):
+                cs = call_step(st)
+                if cs:
+                    flow.append(cs)
+                else:
+                    src = ast.unparse(st)
+                    if src in ("self._basis_set = eigvecs", "self._n_a_compression_matrix = n_a_compress_mat"):
+                        flow.append((ast.unparse(st.targets[0]), "=", [ast.unparse(st.value)]))
+                    elif src.startswith("trans_perms = ") or ast.unparse(st.value) == "time.time()":
+                        if src.startswith("trans_perms = ") and src != "trans_perms = self._spg_reps.translation_permutations":
+                            fail(rel, st, "trans_perms has an unexpected source")
+                    else:
+                        fail(rel, st, f"run(): unexpected assignment `{src[:80]}`")
+        if direct is not True:
+            fail(rel, fn, "direct_permutation = True expected")
+        rec(rel, fn, f"FCBasisSetO{k}.run dataflow", [list(x[:2]) + [x[2]] for x in flow])
+        optional = [x for x in flow if x[1].startswith("OPTIONAL")]
+        flow = [x for x in flow if not x[1].startswith("OPTIONAL")]
+
+        def emit(name, fl):
+            out.append(f"def {name} : List (String × String × List String) := [")
+            out.append(",\n".join(f'  ({json.dumps(a)}, {json.dumps(b)}, [' + ", ".join(json.dumps(x) for x in c) + "])"
+                                   for a, b, c in fl) + "]")
+            out.append("")
+        emit(f"runFlowO{k}", flow)
+        emit(f"runFlowOptionalO{k}", optional)
+    out.append("end Symfc.Gen")
+    return "\n".join(out) + "\n"
+
+
 # ----------------------------------------------------------------------------------------
 
 GENERATORS = {
@@ -1828,6 +1895,7 @@ GENERATORS = {
     "Purity": gen_purity,
     "SgPermSkel": gen_skel("SgPermSkel"),
     "PipelineSkel": gen_skel("PipelineSkel"),
+    "PipelineFlow": gen_pipeline_flow,
     "SpgRepsSkel": gen_skel("SpgRepsSkel"),
 }
 
